@@ -226,4 +226,15 @@ def stepFinish (sub : NList) : NList :=
   else if sub.order = .reverse then sub.reverse
   else sub
 
+/-- `XPath::step` over a whole location path (XPath.cpp:2892-3034).  `axisRaw s ctx` is what the axis function
+of step `s` (`findChildren`, `findAncestors`, … followed by `predicates`) leaves in `subQueryResults` for the
+context node `ctx`: the nodes in the order found, flagged document order (forward axes) or reverse document
+order (reverse axes).  For the last step that list is delivered through `stepFinish`; otherwise the rest of the
+path is evaluated for each of its nodes *in the order found* and the results are merged by `stepMerge`. -/
+def evalPath {σ : Type} (env : Env) (axisRaw : σ → NodeRef → NList) : List σ → NodeRef → NList
+  | [], _ => ⟨[], .document⟩
+  | [s], ctx => stepFinish (axisRaw s ctx)
+  | s :: s2 :: rest, ctx =>
+    stepMerge env ((axisRaw s ctx).nodes.map fun c => (evalPath env axisRaw (s2 :: rest) c).nodes)
+
 end XalanModel.C12
